@@ -175,6 +175,33 @@ CHECKS = {
         "design_ref": "DESIGN.md section 5, C17",
         "note": TRUSTED + " Which fields a national algorithm needs comes from spec/National.tla (NatNeeds).",
     },
+    "C08": {
+        "technique": "TLA+ spec (Generate: normative TooLong/CarriesClause + step machine) + TLC: exhaustive MC_Generate "
+                     "on four synthetic layouts, all its component triples replayed into from_components/generate on "
+                     "a scratch table holding those layouts, trace validation (TraceGenerate) over every real country",
+        "text": "MC_Generate: 4 layouts (no branch field / bank+branch+account / no bank field / national digit "
+                "field) x every triple of component strings over 2-3 symbols up to field width + 1 through the "
+                "pad/split/guard/place machine: overlong => its own class, nothing dropped or changed, raises only "
+                "for a reason. All 2.5e4 (quick) triples are replayed into the library on a scratch table. Real "
+                "table: every country with positions x conforming / shorter / exactly wide / one-too-long (each "
+                "component) / combined bank+branch (with and without branch) / white space, lower case / illegal "
+                "characters / wrong classes; unknown and position-less countries.",
+        "design_ref": "DESIGN.md section 5, C08",
+        "note": TRUSTED + " When nothing is too long, any library error is allowed (e.g. structure violations).",
+    },
+    "C09": {
+        "technique": "TLA+ spec (National.NatCompute/NatOK, Generate, Covered positions) + TLC: MC_National invariant "
+                     "'computed digits validate', NatGen as generator, trace validation (TraceGenerate, TraceNational) "
+                     "of generate / seeded random / parse-rebuild",
+        "text": "Spec level: in every state of MC_National the prescribed digits validate and only they do. "
+                "Implementation: for the 19 computing countries 40 / 1,500 generated IBANs (conforming and shorter "
+                "components) and 20 / 750 seeded random draws (registry on/off) are re-validated with national "
+                "validation and judged by the published algorithm; for every country with positions 15 / 400 "
+                "nationally valid IBANs (reference-computed digits from TLC) are parsed, all eight components read "
+                "off and BBAN.from_components must reproduce every covered position.",
+        "design_ref": "DESIGN.md section 5, C09",
+        "note": TRUSTED + " Filler positions (belonging to no component) are computed by the spec from the table.",
+    },
 }
 
 NOT_YET = {
